@@ -246,10 +246,32 @@ fn phase_json(s: &State<Eos>) -> Value {
 
 /// conditions every returned 2-phase result must satisfy; returns (list of broken conditions, metrics)
 fn common_checks(vle: &Vle, t: f64, worst: &mut Worst) -> Vec<String> {
-    common_checks_opt(vle, Some(t), worst)
+    common_checks_tol(vle, Some(t), worst, Tol { lnf: TOL_LNF, p_abs: TOL_P_ABS })
 }
 
 fn common_checks_opt(vle: &Vle, t: Option<f64>, worst: &mut Worst) -> Vec<String> {
+    common_checks_tol(vle, t, worst, Tol { lnf: TOL_LNF, p_abs: TOL_P_ABS })
+}
+
+/// tolerances derived from the REQUESTED solver tolerance (the property quantifies over solver option pairs)
+#[derive(Clone, Copy)]
+struct Tol {
+    lnf: f64,
+    p_abs: f64,
+}
+impl Tol {
+    /// bubble/dew: the outer loop accepts err_out < tol_outer, where err_out is sum|K x1/x2 - 1| (=> |dln f| ~ tol) or the
+    /// Newton residual norm in reduced units (=> |dln f| < tol / T, |dp| < tol); factor 10 + round-off floor 1e-10
+    fn bubble_dew(tol_outer: f64) -> Tol {
+        Tol { lnf: 10.0 * tol_outer + 1e-10, p_abs: TOL_P_ABS + 10.0 * tol_outer }
+    }
+    /// Tp flash: the returned state is the one whose residual norm was tested: |dln f_i| < tol (+ round-off floor)
+    fn flash(tol: f64) -> Tol {
+        Tol { lnf: tol + 1e-10, p_abs: TOL_P_ABS }
+    }
+}
+
+fn common_checks_tol(vle: &Vle, t: Option<f64>, worst: &mut Worst, tol: Tol) -> Vec<String> {
     let mut bad = Vec::new();
     let (v, l) = (vle.vapor(), vle.liquid());
     let (tv, tl) = (v.temperature.to_reduced(), l.temperature.to_reduced());
@@ -262,7 +284,7 @@ fn common_checks_opt(vle: &Vle, t: Option<f64>, worst: &mut Worst) -> Vec<String
         }
     }
     let (pv, pl) = (v.pressure(Contributions::Total).to_reduced(), l.pressure(Contributions::Total).to_reduced());
-    let dp = ((pv - pl).abs() - TOL_P_ABS).max(0.0) / pv.abs().max(pl.abs());
+    let dp = ((pv - pl).abs() - tol.p_abs).max(0.0) / pv.abs().max(pl.abs());
     worst.dp = worst.dp.max(dp);
     worst.dp_abs = worst.dp_abs.max((pv - pl).abs());
     if !(dp <= TOL_P_REL) {
@@ -275,8 +297,12 @@ fn common_checks_opt(vle: &Vle, t: Option<f64>, worst: &mut Worst) -> Vec<String
         }
         let d = (fv[i] - fl[i]).abs();
         worst.lnf = worst.lnf.max(d);
-        if !(d <= TOL_LNF) {
-            bad.push(format!("fugacity of component {i} differs: ln f_V = {}, ln f_L = {}", fv[i], fl[i]));
+        // the solvers test fugacity COEFFICIENTS assuming a common pressure; the phase pressures themselves agree only to the
+        // accuracy of the density iteration (checked separately above), which enters ln f = ln x + ln phi + ln p directly
+        let allowed = tol.lnf + (pv / pl).ln().abs();
+        worst.lnf_ratio = worst.lnf_ratio.max(d / allowed);
+        if !(d <= allowed) {
+            bad.push(format!("fugacity of component {i} differs: ln f_V = {}, ln f_L = {} (|difference| {:e} > {:e} allowed for the requested solver tolerance)", fv[i], fl[i], d, allowed));
         }
     }
     let rv = v.partial_density.to_reduced();
@@ -301,7 +327,9 @@ struct Worst {
     dbal: f64,
     dpspec: f64,
     dp_abs: f64,
+    lnf_ratio: f64,
     narrow: usize,
+    variants: std::collections::BTreeMap<String, [usize; 2]>,
     /// attempted/found: p-specified bubble points, flashes from an initial state, diagram states checked, diagrams failed
     extra: [usize; 6],
 }
@@ -336,7 +364,7 @@ fn check_point(sys: &Sys, t: f64, x: f64, s: f64, ntot: f64, worst: &mut Worst, 
     match &bub {
         Ok(vle) => {
             counts[1] += 1;
-            let mut bad = common_checks(vle, t, worst);
+            let mut bad = common_checks_tol(vle, Some(t), worst, Tol::bubble_dew(1e-10));
             let dx = (0..2).map(|i| (vle.liquid().molefracs[i] - spec[i]).abs()).fold(0.0, f64::max);
             worst.dx = worst.dx.max(dx);
             if !(dx <= TOL_X) {
@@ -356,7 +384,7 @@ fn check_point(sys: &Sys, t: f64, x: f64, s: f64, ntot: f64, worst: &mut Worst, 
         match run_guard(|| Vle::bubble_point(&sys.eos, Pressure::from_reduced(pbv), &spec, Some(t0), None, Default::default())) {
             Ok(vle) => {
                 worst.extra[1] += 1;
-                let mut bad = common_checks_opt(&vle, None, worst);
+                let mut bad = common_checks_tol(&vle, None, worst, Tol::bubble_dew(1e-10));
                 let dx = (0..2).map(|i| (vle.liquid().molefracs[i] - spec[i]).abs()).fold(0.0, f64::max);
                 worst.dx = worst.dx.max(dx);
                 if !(dx <= TOL_X) {
@@ -388,7 +416,7 @@ fn check_point(sys: &Sys, t: f64, x: f64, s: f64, ntot: f64, worst: &mut Worst, 
     match &dew {
         Ok(vle) => {
             counts[3] += 1;
-            let mut bad = common_checks(vle, t, worst);
+            let mut bad = common_checks_tol(vle, Some(t), worst, Tol::bubble_dew(1e-10));
             let dx = (0..2).map(|i| (vle.vapor().molefracs[i] - spec[i]).abs()).fold(0.0, f64::max);
             worst.dx = worst.dx.max(dx);
             if !(dx <= TOL_X) {
@@ -417,7 +445,7 @@ fn check_point(sys: &Sys, t: f64, x: f64, s: f64, ntot: f64, worst: &mut Worst, 
             match fl {
                 Ok(vle) => {
                     counts[5] += 1;
-                    let mut bad = common_checks(&vle, t, worst);
+                    let mut bad = common_checks_tol(&vle, Some(t), worst, Tol::flash(1e-8));
                     for (nm, ph) in [("vapor", vle.vapor()), ("liquid", vle.liquid())] {
                         let pk = ph.pressure(Contributions::Total).to_reduced();
                         let d = ((pk - p).abs() - TOL_P_ABS).max(0.0) / p;
@@ -448,7 +476,7 @@ fn check_point(sys: &Sys, t: f64, x: f64, s: f64, ntot: f64, worst: &mut Worst, 
                     match run_guard(|| Vle::tp_flash(&sys.eos, temp, Pressure::from_reduced(p2), &feed, Some(&vle), Default::default(), None)) {
                         Ok(v2) => {
                             worst.extra[3] += 1;
-                            let mut bad = common_checks(&v2, t, worst);
+                            let mut bad = common_checks_tol(&v2, Some(t), worst, Tol::flash(1e-8));
                             let (nv, nl) = (v2.vapor().moles.to_reduced(), v2.liquid().moles.to_reduced());
                             for i in 0..2 {
                                 let d = (nv[i] + nl[i] - fr[i]).abs() / fr.sum();
@@ -473,12 +501,250 @@ fn check_point(sys: &Sys, t: f64, x: f64, s: f64, ntot: f64, worst: &mut Worst, 
                         flash_out = Some((vle, fs));
                     }
                 }
-                Err(e) => fail("flash", format!("flash strictly inside the envelope (p = p_dew + {s:.3} (p_bubble - p_dew)) not found: {e}"),
-                               json!({"error": e, "p": p, "p_bubble": pb, "p_dew": pd})),
+                Err(e) => {
+                    // signature of the recorded defect class: the feed is the vapour-like root and the stability analysis
+                    // offers only (much denser) liquid trial phases as start values
+                    let mut sig = json!(null);
+                    if let Ok(fs) = State::new_npt(&sys.eos, temp, Pressure::from_reduced(p), &feed, DensityInitialization::None) {
+                        if let Ok(Ok(tr)) = catch_unwind(AssertUnwindSafe(|| fs.stability_analysis(SolverOptions::default()))) {
+                            let rf = fs.density.to_reduced();
+                            let only_liquid = !tr.is_empty() && tr.iter().all(|q| q.density.to_reduced() > 3.0 * rf);
+                            sig = json!({"feed_density": rf, "trial_phase_densities": tr.iter().map(|q| q.density.to_reduced()).collect::<Vec<_>>(),
+                                "class": if only_liquid && e.contains("IterationFailed(rachford_rice)") { "flash_rr_failed_stability_only_liquid_trials" } else { "other" }});
+                        }
+                    }
+                    fail("flash", format!("flash strictly inside the envelope (p = p_dew + {s:.3} (p_bubble - p_dew)) not found: {e}"),
+                         json!({"error": e, "p": p, "p_bubble": pb, "p_dew": pd, "signature": sig}))
+                }
             }
         }
     }
+    if let (Ok(b), Ok(d), Some(pbv), Some(pdv)) = (&bub, &dew, pb, pd) {
+        let extra = variants(sys, t, x, s, ntot, pbv, pdv, b, d, flash_out.as_ref().map(|f| &f.0), worst);
+        failures.extend(extra);
+    }
     PointResult { failures, bubble: bub.ok(), flash: flash_out }
+}
+
+/// feed balance + specified pressure of a flash result
+fn flash_spec_checks(vle: &Vle, p: f64, fr: &Array1<f64>, worst: &mut Worst, bad: &mut Vec<String>) {
+    let (nv, nl) = (vle.vapor().moles.to_reduced(), vle.liquid().moles.to_reduced());
+    for i in 0..fr.len() {
+        let d = (nv[i] + nl[i] - fr[i]).abs() / fr.sum();
+        worst.dbal = worst.dbal.max(d);
+        if !(d <= TOL_X) {
+            bad.push(format!("feed of component {i} not conserved: v+l = {}, feed = {}", nv[i] + nl[i], fr[i]));
+        }
+        if !(nv[i] >= 0.0 && nl[i] >= 0.0) {
+            bad.push(format!("negative phase amount of component {i}"));
+        }
+    }
+    for (nm, ph) in [("vapor", vle.vapor()), ("liquid", vle.liquid())] {
+        let pk = ph.pressure(Contributions::Total).to_reduced();
+        let d = ((pk - p).abs() - TOL_P_ABS).max(0.0) / p;
+        worst.dpspec = worst.dpspec.max(d);
+        if !(d <= TOL_P_REL) {
+            bad.push(format!("{nm} pressure {pk} is not the specified {p}"));
+        }
+    }
+}
+
+/// Guess / option / specification variants of the drivers at the same point (the property quantifies over "all initial
+/// guesses and solver option pairs").  Every RETURNED result must satisfy the conditions, with the isofugacity bound
+/// derived from the REQUESTED tolerance, the specified T exactly and the specified p to tolerance.  Variants whose start
+/// is a converged neighbour (`must`) also have to be found; for the others an error is only counted.
+/// All random choices derive from (T, x, s) so that `--point` replays them.
+#[allow(clippy::too_many_arguments)]
+fn variants(sys: &Sys, t: f64, x: f64, s: f64, ntot: f64, pb: f64, pd: f64, bub: &Vle, dew: &Vle, flash: Option<&Vle>, worst: &mut Worst) -> Vec<Value> {
+    let mut failures = Vec::new();
+    let mut rng = Rng(t.to_bits() ^ x.to_bits().rotate_left(17) ^ s.to_bits().rotate_left(31));
+    let spec = arr1(&[x, 1.0 - x]);
+    let temp = Temperature::from_reduced(t);
+    let mut record = |worst: &mut Worst, kind: &str, res: Result<Vec<String>, String>, must: bool, detail: Value| {
+        let e = worst.variants.entry(kind.to_string()).or_insert([0, 0]);
+        e[0] += 1;
+        match res {
+            Ok(bad) => {
+                e[1] += 1;
+                if !bad.is_empty() {
+                    failures.push(json!({"key": {"pair": sys.names, "kind": kind, "T": t, "x": x}, "what": bad.join("; "), "detail": detail, "Tc": sys.tc, "s": s, "ntot": ntot}));
+                }
+            }
+            Err(err) => {
+                if must {
+                    failures.push(json!({"key": {"pair": sys.names, "kind": kind, "T": t, "x": x}, "what": format!("{kind}: not found although started from a converged neighbouring equilibrium: {err}"),
+                        "detail": detail, "Tc": sys.tc, "s": s, "ntot": ntot}));
+                }
+            }
+        }
+    };
+    // ---------------- bubble / dew points with non-default, asymmetric option pairs (inner, outer)
+    let opt_cases: [(&str, SolverOptions, SolverOptions, f64); 6] = [
+        ("inner_tol_1e-2", SolverOptions::new().tol(1e-2), SolverOptions::default(), 1e-10),
+        ("inner_tol_1e-4_outer_tol_1e-12", SolverOptions::new().tol(1e-4), SolverOptions::new().tol(1e-12), 1e-12),
+        ("outer_tol_1e-6", SolverOptions::default(), SolverOptions::new().tol(1e-6), 1e-6),
+        ("inner_max_iter_1", SolverOptions::new().max_iter(1), SolverOptions::default(), 1e-10),
+        ("inner_tol_1e-13_outer_tol_1e-5", SolverOptions::new().tol(1e-13), SolverOptions::new().tol(1e-5), 1e-5),
+        ("inner_max_iter_2_tol_1e-1_outer_max_iter_100", SolverOptions::new().max_iter(2).tol(1e-1), SolverOptions::new().max_iter(100), 1e-10),
+    ];
+    let y_b = bub.vapor().molefracs.clone();
+    let x_d = dew.liquid().molefracs.clone();
+    let t_off = Temperature::from_reduced(t * if rng.below(2) == 0 { 0.99 } else { 1.01 });
+    for k in 0..2 {
+        let (nm, oi, oo, tol_o) = opt_cases[(rng.below(3) + 3 * k) % 6];
+        let tol = Tol::bubble_dew(tol_o);
+        for drv in 0..4 {
+            let kind = format!("{}_opts:{nm}", ["bubble_T", "dew_T", "bubble_p", "dew_p"][drv]);
+            let r = run_guard(|| match drv {
+                0 => Vle::bubble_point(&sys.eos, temp, &spec, None, None, (oi, oo)),
+                1 => Vle::dew_point(&sys.eos, temp, &spec, None, None, (oi, oo)),
+                2 => Vle::bubble_point(&sys.eos, Pressure::from_reduced(pb), &spec, Some(t_off), None, (oi, oo)),
+                _ => Vle::dew_point(&sys.eos, Pressure::from_reduced(pd), &spec, Some(t_off), None, (oi, oo)),
+            });
+            let detail = json!({"options": nm, "requested_outer_tolerance": tol_o, "allowed_ln_f_difference": tol.lnf});
+            let res = r.map(|vle| {
+                let mut bad = common_checks_tol(&vle, if drv < 2 { Some(t) } else { None }, worst, tol);
+                let ph = if drv % 2 == 0 { vle.liquid() } else { vle.vapor() };
+                let dx = (0..2).map(|i| (ph.molefracs[i] - spec[i]).abs()).fold(0.0, f64::max);
+                worst.dx = worst.dx.max(dx);
+                if !(dx <= TOL_X) {
+                    bad.push(format!("composition {:?} of the specified phase is not the specified {:?}", ph.molefracs.to_vec(), spec.to_vec()));
+                }
+                if drv >= 2 {
+                    let psp = if drv == 2 { pb } else { pd };
+                    for (pn, q) in [("vapor", vle.vapor()), ("liquid", vle.liquid())] {
+                        let pk = q.pressure(Contributions::Total).to_reduced();
+                        if !(((pk - psp).abs() - tol.p_abs).max(0.0) / psp <= TOL_P_REL) {
+                            bad.push(format!("{pn} pressure {pk} is not the specified {psp}"));
+                        }
+                    }
+                }
+                bad
+            });
+            record(worst, &kind, res, false, detail);
+        }
+    }
+    // ---------------- bubble / dew points started from guesses (neighbouring converged point, perturbed)
+    {
+        let f = 1.0 + rng.range(-0.1, 0.1);
+        let yg = arr1(&[y_b[0] * (1.0 + rng.range(-0.1, 0.1)), y_b[1]]);
+        let xg = arr1(&[x_d[0] * (1.0 + rng.range(-0.1, 0.1)), x_d[1]]);
+        let tol = Tol::bubble_dew(1e-10);
+        for drv in 0..6 {
+            let kind = ["bubble_T_guess_p_y", "dew_T_guess_p_x", "bubble_T_guess_p", "dew_T_guess_x", "dew_p_guess_T", "dew_p_guess_T_x"][drv];
+            let r = run_guard(|| match drv {
+                0 => Vle::bubble_point(&sys.eos, temp, &spec, Some(Pressure::from_reduced(pb * f)), Some(&yg), Default::default()),
+                1 => Vle::dew_point(&sys.eos, temp, &spec, Some(Pressure::from_reduced(pd * f)), Some(&xg), Default::default()),
+                2 => Vle::bubble_point(&sys.eos, temp, &spec, Some(Pressure::from_reduced(pb * f)), None, Default::default()),
+                3 => Vle::dew_point(&sys.eos, temp, &spec, None, Some(&xg), Default::default()),
+                4 => Vle::dew_point(&sys.eos, Pressure::from_reduced(pd), &spec, Some(t_off), None, Default::default()),
+                _ => Vle::dew_point(&sys.eos, Pressure::from_reduced(pd), &spec, Some(t_off), Some(&xg), Default::default()),
+            });
+            let res = r.map(|vle| {
+                let mut bad = common_checks_tol(&vle, if drv < 4 { Some(t) } else { None }, worst, tol);
+                let ph = if drv == 0 || drv == 2 { vle.liquid() } else { vle.vapor() };
+                let dx = (0..2).map(|i| (ph.molefracs[i] - spec[i]).abs()).fold(0.0, f64::max);
+                if !(dx <= TOL_X) {
+                    bad.push(format!("composition {:?} of the specified phase is not the specified {:?}", ph.molefracs.to_vec(), spec.to_vec()));
+                }
+                let (pref, nm) = if drv == 0 || drv == 2 { (pb, "bubble") } else { (pd, "dew") };
+                let pk = ph.pressure(Contributions::Total).to_reduced();
+                if !(((pk - pref).abs() - tol.p_abs).max(0.0) / pref <= if drv < 4 { 1e-6 } else { TOL_P_REL }) {
+                    bad.push(format!("{nm} pressure {pk} from the guess differs from {pref} (no guess / specified)"));
+                }
+                if drv >= 4 && !((ph.temperature.to_reduced() - t).abs() <= 1e-6 * t) {
+                    bad.push(format!("dew temperature {} at the dew pressure of {t} K", ph.temperature.to_reduced()));
+                }
+                bad
+            });
+            record(worst, kind, res, true, json!({"p_factor": f, "t_init": t_off.to_reduced()}));
+        }
+    }
+    // ---------------- flashes: other temperature / pressure than the initial state, State::tp_flash, options, drivers
+    if let Some(fl0) = flash {
+        let feed = Moles::from_reduced(arr1(&[x * ntot, (1.0 - x) * ntot]));
+        let fr = feed.to_reduced();
+        let p0 = pd + s * (pb - pd);
+        let dt = rng.range(0.5, 3.0) * if rng.below(2) == 0 { 1.0 } else { -1.0 };
+        let t2 = t + dt;
+        let p2 = p0 * (1.0 + rng.range(-0.02, 0.02));
+        let temp2 = Temperature::from_reduced(t2);
+        // is (t2, p) / (t2, p2) still strictly inside the envelope?  (then the flash has to be found)
+        let inside = |tt: f64, pp: f64| -> bool {
+            let b = run_guard(|| Vle::bubble_point(&sys.eos, Temperature::from_reduced(tt), &spec, Some(Pressure::from_reduced(pb)), Some(&y_b), Default::default()));
+            let d = run_guard(|| Vle::dew_point(&sys.eos, Temperature::from_reduced(tt), &spec, Some(Pressure::from_reduced(pd)), Some(&x_d), Default::default()));
+            match (b, d) {
+                (Ok(b), Ok(d)) => {
+                    let (pbb, pdd) = (b.liquid().pressure(Contributions::Total).to_reduced(), d.vapor().pressure(Contributions::Total).to_reduced());
+                    pp > pdd + 0.02 * (pbb - pdd) && pp < pbb - 0.02 * (pbb - pdd)
+                }
+                _ => false,
+            }
+        };
+        let cases: [(&str, f64, f64, SolverOptions, f64, u8); 7] = [
+            ("flash_init_other_T", t2, p0, SolverOptions::default(), 1e-8, 0),
+            ("flash_init_other_T_p", t2, p2, SolverOptions::default(), 1e-8, 0),
+            ("state_tp_flash_init_other_T", t2, p0, SolverOptions::default(), 1e-8, 1),
+            ("flash_tol_1e-11", t, p0, SolverOptions::new().tol(1e-11).max_iter(1000), 1e-11, 2),
+            ("flash_tol_1e-5", t, p0, SolverOptions::new().tol(1e-5), 1e-5, 2),
+            ("flash_init_tol_1e-10_other_T", t2, p0, SolverOptions::new().tol(1e-10).max_iter(1000), 1e-10, 0),
+            ("flash_nonvolatile_empty", t, p0, SolverOptions::default(), 1e-8, 3),
+        ];
+        for (kind, tt, pp, opt, tl, mode) in cases {
+            let must = mode != 3 && (tt == t || inside(tt, pp));
+            let r = run_guard(|| match mode {
+                0 => Vle::tp_flash(&sys.eos, Temperature::from_reduced(tt), Pressure::from_reduced(pp), &feed, Some(fl0), opt, None),
+                1 => State::new_npt(&sys.eos, Temperature::from_reduced(tt), Pressure::from_reduced(pp), &feed, DensityInitialization::None)?.tp_flash(Some(fl0), opt, None),
+                2 => Vle::tp_flash(&sys.eos, Temperature::from_reduced(tt), Pressure::from_reduced(pp), &feed, None, opt, None),
+                _ => Vle::tp_flash(&sys.eos, Temperature::from_reduced(tt), Pressure::from_reduced(pp), &feed, None, opt, Some(vec![])),
+            });
+            let res = r.map(|vle| {
+                let mut bad = common_checks_tol(&vle, Some(tt), worst, Tol::flash(tl));
+                flash_spec_checks(&vle, pp, &fr, worst, &mut bad);
+                bad
+            });
+            record(worst, kind, res, must, json!({"T_flash": tt, "p_flash": pp, "T_initial_state": t, "p_initial_state": p0, "requested_tolerance": tl}));
+        }
+        // PhaseDiagram::lle = a chain of flashes, each started from the previous one: isobaric (T varies) and isothermal
+        for iso_p in [true, false] {
+            let n = 4usize;
+            let kind = if iso_p { "lle_driver_isobaric" } else { "lle_driver_isothermal" };
+            let (lo, hi) = if iso_p { (t.min(t2), t.max(t2)) } else { (pd + 0.2 * (pb - pd), pd + 0.8 * (pb - pd)) };
+            let r = run_guard(|| {
+                if iso_p {
+                    feos_core::PhaseDiagram::lle(&sys.eos, Pressure::from_reduced(p0), &feed, Temperature::from_reduced(lo), Temperature::from_reduced(hi), Some(n))
+                } else {
+                    feos_core::PhaseDiagram::lle(&sys.eos, temp, &feed, Pressure::from_reduced(lo), Pressure::from_reduced(hi), Some(n))
+                }
+            });
+            let res = r.map(|dia| {
+                let mut bad = Vec::new();
+                let grid: Vec<f64> = (0..n).map(|i| lo + (hi - lo) * i as f64 / (n - 1) as f64).collect();
+                let mut last = f64::NEG_INFINITY;
+                for vle in &dia.states {
+                    let tv = vle.vapor().temperature.to_reduced();
+                    let pv = vle.vapor().pressure(Contributions::Total).to_reduced();
+                    let val = if iso_p { tv } else { pv };
+                    // each returned state belongs to one grid value of the varied variable, in increasing order
+                    let hit = grid.iter().any(|g| (val - g).abs() <= if iso_p { 1e-10 * g } else { TOL_P_REL * g + TOL_P_ABS });
+                    if !hit || !(val > last) {
+                        bad.push(format!("state at {} = {val} is not at a new point of the requested grid {grid:?}", if iso_p { "T" } else { "p" }));
+                    }
+                    last = val;
+                    let mut b2 = common_checks_tol(vle, if iso_p { None } else { Some(t) }, worst, Tol::flash(1e-8));
+                    let pspec = if iso_p { p0 } else { pv };
+                    flash_spec_checks(vle, pspec, &fr, worst, &mut b2);
+                    bad.extend(b2);
+                }
+                if iso_p && lo == t.min(t2) && dia.states.is_empty() {
+                    bad.push("no state returned although the first/last grid point is a converged flash".into());
+                }
+                bad
+            });
+            record(worst, kind, res, false, json!({"grid_from": lo, "grid_to": hi, "p": p0, "isobaric": iso_p}));
+        }
+    }
+    failures
 }
 
 // ------------------------------------------------------------------------------------------------
@@ -866,9 +1132,11 @@ fn main() {
             "flash_attempted": counts[4], "flash_found": counts[5],
             "worst": {"rel_pressure_difference": worst.dp, "abs_ln_fugacity_difference": worst.lnf, "min_phase_distinctness": worst.min_dist,
                       "spec_composition_deviation": worst.dx, "rel_feed_imbalance": worst.dbal, "rel_flash_pressure_deviation": worst.dpspec,
-                      "abs_pressure_difference_reduced": worst.dp_abs, "envelopes_narrower_than_tolerance_(no_flash)": worst.narrow},
+                      "abs_pressure_difference_reduced": worst.dp_abs,
+                      "ln_fugacity_difference_over_allowed_(requested_tolerance)": worst.lnf_ratio, "envelopes_narrower_than_tolerance_(no_flash)": worst.narrow},
             "bubble_p_specified_attempted": worst.extra[0], "bubble_p_specified_found": worst.extra[1],
             "flash_from_initial_state_attempted": worst.extra[2], "flash_from_initial_state_found": worst.extra[3],
+            "variants_attempted_found": worst.variants.iter().map(|(k, v)| (k.clone(), json!(v))).collect::<serde_json::Map<String, Value>>(),
             "binary_vle_diagram_states_checked": worst.extra[4], "binary_vle_diagrams_failed_(not_a_clause_of_the_property)": worst.extra[5],
             "known_points": known_out,
             "tolerances": {"ln_f": TOL_LNF, "p_rel": TOL_P_REL, "p_abs_reduced": TOL_P_ABS, "min_envelope_rel": MIN_ENVELOPE, "composition_and_balance": TOL_X, "distinct": MIN_DISTINCT},
